@@ -527,7 +527,9 @@ func init() {
 			bm := batches("bombs", 1, 0, 900)
 			bm[0].Env = []string{"GOMAXPROCS=1", "GOGC=off"}
 			bs = append(bs, bm...)
-			bs = append(bs, batches("huge-limit-reader", 1, 0, 900)...)
+			hl := batches("huge-limit-reader", 1, 0, 900)
+			hl[0].Slow = true // 4 GiB buffers: no hang verdict from timing
+			bs = append(bs, hl...)
 			bs = append(bs, batches("big-inputs", 1, 0, 900)...)
 			cl := batches("concurrent-limit", 4, 6, 900)
 			if tier == "thorough" {
